@@ -260,7 +260,12 @@ def gen_lines(rng, L, be, n_cheap, n_exp, hist, ophist, for_c06=False):
                 v = rng.choice([v, v, 2 ** 32, 2 ** 63, 2 ** 64 - 1, rng.bits(64)])
             add("fp_set_small", 0, v)
         elif k == 13:
-            add(rng.choice(["fp_set_one", "fp_set_zero"]), 0)
+            if rng.below(2):
+                add(rng.choice(["fp_set_one", "fp_set_zero"]), 0)
+            else:
+                # fp_decode_reduce: ref ignores len (C06 finding fp_decode_reduce:len-ignored), so C07 only uses len <= FP_ENCODED_BYTES there
+                ln = rng.choice([L.nbytes, L.nbytes, L.nbytes - 1, 1, 8, 0] + ([L.nbytes + 1, 2 * L.nbytes, 2 * L.nbytes + 3] if be != "ref" else []))
+                add("fp_decode_reduce", 0, ln, (rng.bits(8 * ln) | (1 << (8 * ln - 1))) if ln else 0)
         elif k == 14:
             add("fp_encode", 0, E())
         elif k == 15:
@@ -651,6 +656,8 @@ def oracle(L, be, line, res):
         if y % 2 or r[1] != (T32 if sq else 0) or y * y % p != (va if sq else (-va) % p):
             return bad("wrong root / flag / sign normalisation")
         return None
+    if op == "fp_decode_reduce":
+        return fpres(a[1] % 2 ** (8 * a[0]) if a[0] else 0)
     if op == "gf_decode_reduce":
         return fpres(a[1] % 2 ** (8 * a[0]) if a[0] else 0)
     return ("%s:lvl%d:%s:no-oracle" % (be, L.lvl, op), "operation without oracle")
